@@ -235,6 +235,17 @@ def concrete(repo, seed, n):
                                 what="coupled frequency response does not solve (-W^2 M + iW B + K) d = F (or v, a not iW d, -W^2 d)")
             if Fuse is not F:
                 ref = ref_keep
+        # mass given as a 1-D vector (non-uniform) or None with coupled stiffness / damping, with and without the pre-eigensolution
+        mv = rng.rand(nd) * 3 + 0.5
+        for mform, Mref in ((mv, np.diag(mv)), (None, np.eye(nd))):
+            refv = np.column_stack([np.linalg.solve(-w * w * Mref + 1j * w * B + K, F[:, j]) for j, w in enumerate(W)])
+            for cls, kw in (("SolveUnc", {"pre_eig": True}), ("SolveUnc", {}), ("FreqDirect", {}), ("SolveUnc", {"pre_eig": True, "h": 0.01})):
+                solv = getattr(ode, cls)(mform, B, K, **kw).fsolve(F, freq)
+                ev += 1
+                errv = abs(solv.d - refv).max() / abs(refv).max()
+                if not errv < 1e-8:
+                    return ev, dict(solver=cls, options=kw, rel_err=float(errv), mass="1-D vector" if mform is not None else "None",
+                                    what="coupled frequency response with the mass given as %s does not solve (-W^2 M + iW B + K) d = F" % ("a 1-D vector" if mform is not None else "None"))
         # solvepsd in floating point: rigid-body, elastic and residual-flexibility modes with uncertainty factors; the response PSD of every recovery row is
         # sum_i PSD_i |sum_k drm_k * u_k * H_k,i|^2 with u = rbduf on rigid-body rows, elduf on elastic rows and 1 on residual-flexibility rows; rms = trapezoid area
         mS, bS, kS = np.array([2.0, 1.5, 3.0, 1.0]), np.array([0.0, 0.7, 1.1, 0.0]), np.array([0.0, 120.0, 400.0, 9000.0])
@@ -268,6 +279,27 @@ def concrete(repo, seed, n):
                     if not okS:
                         return ev, dict(solver=cls_, what="solvepsd: response PSD / rms differ from sum_i PSD_i |drm (u * H_i)|^2 with u = rbduf / elduf / 1 on rigid-body / elastic / "
                                         "residual-flexibility rows", rbduf=rbduf_, elduf=elduf_, rf=rfS)
+        # residual-flexibility / rigid-body partition vectors in any order (ascending, shuffled with a contiguous span, descending, boolean mask): same solution
+        m6, b6, k6 = np.array([2.0, 1.0, 3.0, 1.5, 2.5, 1.2, 0.7]), np.array([0.0, 0.4, 0.6, 0.0, 0.0, 0.0, 0.0]), np.array([0.0, 90.0, 150.0, 5000.0, 7000.0, 9000.0, 12000.0])
+        fq6 = np.sort(rng.rand(5) * 5 + 0.3)
+        F6 = rng.randn(7, 5) + 1j * rng.randn(7, 5)
+        W6 = 2 * np.pi * fq6
+        ref6 = np.array([F6[k_] / (k6[k_] if k_ >= 3 else (-W6 ** 2 * m6[k_] + 1j * W6 * b6[k_] + k6[k_])) for k_ in range(7)])
+        for rf6 in ([3, 4, 5, 6], [3, 5, 4, 6], [6, 5, 4, 3], [4, 3, 6, 5], [3, 6, 5, 4], np.array([False, False, False, True, True, True, True])):
+            for cls_ in ("SolveUnc", "FreqDirect"):
+                s6 = getattr(ode, cls_)(m6, b6, k6, rf=rf6, rb=[0]).fsolve(F6, fq6)
+                ev += 1
+                if not np.allclose(s6.d, ref6, rtol=1e-9, atol=1e-14):
+                    return ev, dict(solver=cls_, what="frequency response with the residual-flexibility modes listed as %s differs from the closed form (static F/k on rf rows)" % (np.asarray(rf6).tolist(),))
+        K6 = np.diag(k6).copy(); K6[1, 2] = K6[2, 1] = -20.0
+        B6 = np.diag(b6).copy(); B6[1, 2] = B6[2, 1] = 0.05
+        A6 = [-w * w * np.diag(m6)[:3, :3] + 1j * w * B6[:3, :3] + K6[:3, :3] for w in W6]
+        refc = np.vstack((np.column_stack([np.linalg.solve(A6[j], F6[:3, j]) for j in range(5)]), F6[3:] / k6[3:, None]))
+        for rf6 in ([3, 4, 5, 6], [3, 5, 4, 6], [5, 3, 6, 4]):
+            s6 = ode.FreqDirect(np.diag(m6), B6, K6, rf=rf6).fsolve(F6, fq6)
+            ev += 1
+            if not np.allclose(s6.d, refc, rtol=1e-8, atol=1e-14):
+                return ev, dict(solver="FreqDirect", what="coupled frequency response with rf = %s differs from the direct solve" % (rf6,))
         # diagonal system with rb + 0 Hz anywhere in the frequency vector, permutation invariance
         m_, b_, k_ = np.array([2.0, 1.0, 3.0]), np.array([0.0, 0.4, 0.6]), np.array([0.0, 90.0, 150.0])
         fq = np.array([1.5, 0.0, 4.0, 2.5])[rng.permutation(4)]
